@@ -35,7 +35,9 @@ META = {
     "mounted exactly once at its place under the root, read-write exactly for the cache root and for directories holding a "
     "copied input or an output, and nothing else is mounted (C27_mounts_cover, C27_mounts_only, C27_mounts_nodup, "
     "C27_cache_root_rw).  map_path's statements, the branch tests and the argv skeletons of docker.py/singularity.py are "
-    "regenerated from the source and pinned by rfl (C27_source_pinned, C27_skeleton_pinned).  Regression witnesses of the "
+    "regenerated from the source and pinned by rfl (C27_source_pinned, C27_skeleton_pinned).  The failure test on the runtime's return code is regenerated and "
+    "shown to fail on every non-zero status, death by signal included (C27_rc_pinned, C27_nonzero_fails; the fake runtimes also "
+    "exit non-zero or kill themselves).  Regression witnesses of the "
     "repaired defects: C27_witness_pinned_space (D17), C27_witness_last_writer (D17m).",
     "note": "Trusted: Lean kernel; hand-written model of get_bindings/execute; the fakes; the harness' atomisation of the native argv "
     "(occurrences of the known host locations); the staging rule (copy/link modes stage into the job directory, `any` leaves the "
@@ -71,6 +73,8 @@ OBLIGATIONS = [
         "C27_cache_root_rw",
         "C27_mounts_nodup",
         "C27_mounts_only",
+        "C27_rc_pinned",
+        "C27_nonzero_fails",
         "C27_witness_last_writer",
         "C27_witness_pinned_space",
     )
@@ -125,6 +129,8 @@ def gen_case(rng) -> dict:
         "fields": fields,
         "out": rng.random() < 0.35,
         "lits": rng.sample(["-v", "--flag", "plain", "7"], rng.choice([0, 1, 2])),
+        # how the container runtime ends: status 0, a non-zero status, or death by a signal (negative return code)
+        "end": ["exit", 0] if rng.random() < 0.7 else rng.choice([["exit", 1], ["exit", 125], ["exit", 255], ["kill", 15], ["kill", 9], ["kill", 2]]),
     }
 
 
@@ -192,8 +198,12 @@ class Rig:
         from pydra.environments import docker, singularity
 
         self.n += 1
-        for f in (self.log, Path(str(self.log) + ".count"), self.native_argv):
+        ctl = Path(str(self.log) + ".ctl")
+        for f in (self.log, Path(str(self.log) + ".count"), self.native_argv, ctl):
             f.unlink(missing_ok=True)
+        end = case.get("end") or ["exit", 0]
+        if end != ["exit", 0]:
+            ctl.write_text(f"{end[0]} {end[1]}\n")
         ncache = self.root / f"n{self.n}"
         ccache = self.root / f"c{self.n}"
         env = {"PATH": f"{self.bin}:/usr/bin:/bin", "PYDRA_HASH_CACHE": str(self.hash_cache), "HOME": str(self.root)}
@@ -312,7 +322,12 @@ def evaluate(ctx, rig: Rig, cases: list[dict]):
             }
         )
     ans = ctx.driver("Envs", q)
-    for c, r, info in zip(cases, runs, prepared):
+    rcq = []
+    for c in cases:
+        end = c.get("end") or ["exit", 0]
+        rcq.append({"op": "rc_fails", "env": c["runtime"], "rc": end[1] if end[0] == "exit" else -end[1]})
+    rca = ctx.driver("Envs", rcq)
+    for ci, (c, r, info) in enumerate(zip(cases, runs, prepared)):
         ctx.count(f"runtime={c['runtime']}")
         if not info["usable"]:
             # the container runtime was not invoked exactly once, or a run left no job directory: never acceptable
@@ -348,7 +363,12 @@ def evaluate(ctx, rig: Rig, cases: list[dict]):
         if model_full is not None:
             mh, mt = model_full[: len(model_full) - len(q_native_len(info))], model_full[len(model_full) - len(q_native_len(info)) :]
             model = {"head": [rel(x) for x in mh], "tail": " ".join(rel(x) for x in mt) if info["joined"] else [rel(x) for x in mt]}
+            model["runtime_failure"] = bool(rca[ci]["fails"]) if rca is not None and "fails" in rca[ci] else None
+        end = c.get("end") or ["exit", 0]
+        ctx.count(f"end={end[0]}{end[1]}")
         impl = {"head": [rel(x) for x in head], "tail": " ".join(rel(x) for x in tail) if info["joined"] else [rel(x) for x in tail]}
+        # a failing runtime surfaces as RuntimeError (a missing output file of a successful fake run is a ValueError)
+        impl["runtime_failure"] = r["cexc"] == "RuntimeError"
         # --- spec oracle
         root = c["root"]
         ok = ok and normp(workdir) == normp(root + info["cjob"]) and image == f"{c['image']}:{c['tag']}"
@@ -394,6 +414,7 @@ def evaluate(ctx, rig: Rig, cases: list[dict]):
                 cont, got = table[d]
                 ok = ok and got == mode and normp(cont) == normp(root + d)
         ok = ok and info["cross_ok"]
+        ok = ok and impl["runtime_failure"] == (end != ["exit", 0])  # any non-zero status or a signal fails the task
         dirs = {d for f in info["fields"] for d, _ in f["files"]}
         modes = {want[d] for d in dirs}
         nontrivial = len(dirs) >= 2 or len(modes) == 2
@@ -448,7 +469,7 @@ W_D17M = {
     "out": False,
     "lits": [],
 }
-CORPUS = [W_D17, dict(W_D17, runtime="singularity"), W_D17L, dict(W_D17L, runtime="singularity", fields=[dict(W_D17L["fields"][0], kind="multi")]), W_D17M, dict(W_D17M, runtime="singularity", out=True)]
+CORPUS = [dict(W_D17L, end=["kill", 9]), dict(W_D17, runtime="singularity", end=["exit", 3]), W_D17, dict(W_D17, runtime="singularity"), W_D17L, dict(W_D17L, runtime="singularity", fields=[dict(W_D17L["fields"][0], kind="multi")]), W_D17M, dict(W_D17M, runtime="singularity", out=True)]
 
 
 def correspondence(ctx):
